@@ -18,7 +18,7 @@ for d in sorted(glob.glob(os.path.join(ROOT, "seeded", "*"))):
 hdr = """### 9.5 Seeded changes and which checks catch them
 
 %d changes to txtpp were written by sub-agents that saw only the text of one property and a scratch worktree
-(eight rounds; the second asked for less obvious sites, the third and fourth (`"round"` in meta.json) for three mutually
+(nine rounds; the second asked for less obvious sites, the third and fourth (`"round"` in meta.json) for three mutually
 different mechanisms per property with narrow failing inputs, schedule-dependent ones included; the fifth and sixth were
 confined to the ENTRY LAYER - src/main.rs, lib.rs, config.rs, progress.rs, error.rs, shell.rs: how an invocation becomes a
 run and how its result is reported). Each was confirmed in a scratch worktree (`tools/confirm_seeds.sh`,
@@ -54,7 +54,11 @@ plain or only-if-needed) - all caught now. Round 8 (C02-C05, C11, C13-C15, 24 ch
 changes in the line loop that the function-level jobs of C14 / C15 cannot see (a listening tag that ignores an empty output;
 a dependency directive on the last line of a file dropped in collect mode) - C14 and C15 now also have end-to-end jobs
 (c14e, c15e: exhaustive small sources through `Txtpp::run` vs the model) and every other schedule-world file with
-dependencies now ends with its dependency directive as the last line.
+dependencies now ends with its dependency directive as the last line. Round 9 ("second-order effects", 24 changes): six
+missed at first - overlapping tag names where the skipped tag was dropped (C01), a dependency reached through a symbolic
+link or named by absolute path (C02), a stored tag text naming a later tag in the write-escape test (C16), a directory called
+`sh` in the working directory and a source outside the base whose path begins with the base path's text (C17); the
+generators were extended again and all are caught.
 
 | id | property | what the change does | caught by (quick tier) |
 |----|----------|----------------------|------------------------|
